@@ -48,7 +48,10 @@ def gen(rng):
     if rng.random() < 0.4:
         fx2 = fx + 1 if fx % 2 == 0 else fx - 1
         history = [[(fy, fx2), (fy, fx)], [(fy, fx2)], [(fy + 1, fx), (fy, fx2)]][int(rng.integers(0, 3))]
-    return dict(shape=(fy, fx), kind=kind, radius=radius, pos=pos, bright=bright.tolist(), history=[list(h) for h in history])
+    # frames in a wide dtype on a large pedestal (more than 24 bits of mantissa needed), and pattern objects built with another radius
+    base, dt = [(0, 'float32'), (0, 'float32'), (3e8, 'float64'), (2 ** 26, 'int64'), (2 ** 40, 'float64')][int(rng.integers(0, 5))]
+    built = None if rng.random() < 0.7 else float(radius + rng.choice([2.0, 4.0]))   # larger: a default radial map built for it covers the new radius
+    return dict(shape=(fy, fx), kind=kind, radius=radius, pos=pos, bright=bright.tolist(), history=[list(h) for h in history], base=base, dtype=dt, built_radius=built)
 
 
 def render(c):
@@ -61,7 +64,19 @@ def render(c):
 
 def stmt_failure(c):
     f = render(c)
-    pattern = make(c['kind'], c['radius'])
+    if c.get('dtype', 'float32') != 'float32':
+        f = (np.rint(f.astype(np.float64) * 8) + c['base']).astype(c['dtype'])       # brightness steps of 12 on the pedestal
+    if c.get('built_radius'):
+        # the object was built for another radius and its public parameters were changed afterwards
+        pattern = make(c['kind'], c['built_radius'])
+        pattern.get_mask((16, 16))
+        pattern.radius = c['radius']
+        ref_p = make(c['kind'], c['radius'])
+        for attr in ('radius_outer', 'search'):
+            if hasattr(ref_p, attr):
+                setattr(pattern, attr, getattr(ref_p, attr))
+    else:
+        pattern = make(c['kind'], c['radius'])
     try:
         for hy, hx in c.get('history', []):
             cc.get_peaks(np.linspace(0, 1, hy * hx, dtype=np.float32).reshape(hy, hx), pattern, 1)
